@@ -993,7 +993,7 @@ static void ZSTDMT_releaseAllJobResources(ZSTDMT_CCtx* mtctx)
 {
     unsigned jobID;
     DEBUGLOG(3, "ZSTDMT_releaseAllJobResources");
-    for (jobID=0; jobID <= mtctx->jobIDMask; jobID++) {
+    for (jobID=0; (mtctx->jobs != NULL) && (jobID <= mtctx->jobIDMask); jobID++) {
         /* Copy the mutex/cond out */
         ZSTD_pthread_mutex_t const mutex = mtctx->jobs[jobID].job_mutex;
         ZSTD_pthread_cond_t const cond = mtctx->jobs[jobID].job_cond;
